@@ -10,6 +10,7 @@
 import GoBT.Interp.Exec
 import GoBT.Interp.Heap
 import GoBT.Interp.WriteReview
+import GoBT.Interp.EventsProofs
 namespace GoBT.C19
 open GoBT GoBT.Interp GoBT.Script
 
@@ -91,6 +92,26 @@ where
     unfold deref alloc Ref.valid at *
     simp only
     rw [List.getD_eq_getElem?_getD, List.getD_eq_getElem?_getD, List.getElem?_append_left hv]
+
+/-! ### the callback lifecycle (Interp/Events.lean, Interp/EventsProofs.lean) -/
+
+/-- **Attaching a debugger changes nothing, and the callbacks come in the documented order.**  `executeE` is the
+    interpreter model emitting the skeleton of the callback sequence (all callbacks but the four stack ones); it returns
+    the verdict of `execute` — the execution takes no input from the callbacks — and for every script pair, flag word
+    and context the skeleton lies in the lifecycle language `execute > step > opcode > script change > success or error`
+    (the automaton `lifecycleOk`, which the correspondence check also runs on the full callback sequence, stack events
+    included, recorded from the real interpreter; and the recorded sequence with stack events erased must *equal* this
+    skeleton). -/
+theorem callbacks_follow_lifecycle (p2sh : Bool) (H : Crypto) (flags : Nat) (ctx : Option Ctx) (unlock lock : Bytes) :
+    (executeE H flags ctx unlock lock).1 = (execute H flags ctx unlock lock).1 ∧
+    GoBT.Driver.lifecycleOk p2sh (executeE H flags ctx unlock lock).2 = true :=
+  ⟨executeE_verdict H flags ctx unlock lock, skeleton_in_lifecycle p2sh H flags ctx unlock lock⟩
+
+/-- non-vacuity / sanity of the automaton: it rejects a step without AfterExecuteOpcode, a success reported mid-run and
+    a script change before the opcode ended -/
+example : GoBT.Driver.lifecycleOk false "[soS]+".toList = false ∧ GoBT.Driver.lifecycleOk false "[soO+S]".toList = false ∧
+    GoBT.Driver.lifecycleOk false "[scCoOS]+".toList = false ∧ GoBT.Driver.lifecycleOk false "[soOcCS]+".toList = true := by
+  decide
 
 /-- ✓gen — **`thread.State` builds a deep copy.**  In the current sources (write-site table regenerated by go/ssa on every
     run) every slice that `thread.State` stores into the snapshot — data, alt, else and saved-first stack items, the
